@@ -77,7 +77,7 @@ func protoText(m proto.Message) string {
 
 func TestC17CachingFetcherDifferential(t *testing.T) {
 	rec := simkit.NewRecorder(t, "C17", "caching-fetcher-differential",
-		"rapid: universe of <=10 digests over generated blobs: plain Directory messages, Tree messages whose root/children come from the same pool (so a child digest can also exist as a plain Directory blob, or only inside a Tree), Trees built from digest-free directories (one blob that is BOTH a valid Tree and a valid Directory: same digest key, different meaning), a digest that is not stored; generated sequences of GetDirectory / GetTreeRootDirectory / GetTreeChildDirectory on cas.CachingDirectoryFetcher (max 1-3 entries, small byte budgets, LRU or FIFO, both key formats) and on an uncached BlobAccessDirectoryFetcher over an identical second CAS, interleaved with removal / restoration of blobs. Oracle (differential): when the uncached fetcher succeeds the cached one returns an equal message; when it fails the cached one fails with the same status, or returns the message the uncached fetcher returned earlier for the same (digest, tree-root?) key (a legitimately cached content-addressed object). NON-TRIVIAL: one digest fetched successfully both as tree root and as directory with different results AND a cache hit AND a refetch after eviction were observed; distinct by script hash")
+		"rapid: universe of <=10 digests over generated blobs: plain Directory messages, Tree messages whose root/children come from the same pool (so a child digest can also exist as a plain Directory blob, or only inside a Tree), Trees built from digest-free directories (one blob that is BOTH a valid Tree and a valid Directory: same digest key, different meaning), a digest that is not stored; generated sequences of GetDirectory / GetTreeRootDirectory / GetTreeChildDirectory on cas.CachingDirectoryFetcher (max 1-3 entries, small byte budgets, LRU or FIFO, both key formats) and on an uncached BlobAccessDirectoryFetcher over an identical second CAS, interleaved with removal / restoration of blobs. Oracle (differential): when the uncached fetcher succeeds the cached one returns an equal message; when it fails the cached one fails too (with whatever error: status code and text are only compared for a diagnostic label), or returns the message the uncached fetcher returned earlier for the same (digest, tree-root?) key (a legitimately cached content-addressed object). NON-TRIVIAL: one digest fetched successfully both as tree root and as directory with different results AND a cache hit AND a refetch after eviction were observed; distinct by script hash")
 	ctx := context.Background()
 	rapid.Check(t, func(rt *rapid.T) {
 		// Pool of directory messages.
@@ -160,6 +160,7 @@ func TestC17CachingFetcherDifferential(t *testing.T) {
 		okAsRoot := map[string]*remoteexecution.Directory{}
 		okAsDir := map[string]*remoteexecution.Directory{}
 		dualSeen, hitSeen, refetchSeen := false, false, false
+		bothFailed, errorCodeDiffers, errorTextDiffers := false, false, false
 		fetchedBefore := map[string]bool{}
 
 		compare := func(st *cacheStep, key logicalKey, u, k fetchResult, cachedReads int) {
@@ -178,9 +179,16 @@ func TestC17CachingFetcherDifferential(t *testing.T) {
 				}
 				hitSeen = true
 			default:
-				if status.Code(u.err) != status.Code(k.err) || u.err.Error() != k.err.Error() {
-					rt.Fatalf("%+v: uncached fetcher failed with %v, caching fetcher with %v\nscript=%s", *st, u.err, k.err, jsonOf(script))
+				// Both fail. That the caching fetcher passes the
+				// error of the underlying fetcher on unchanged is
+				// what the code does, but it is not documented and
+				// not part of C17: differences are only counted.
+				if status.Code(u.err) != status.Code(k.err) {
+					errorCodeDiffers = true
+				} else if u.err.Error() != k.err.Error() {
+					errorTextDiffers = true
 				}
+				bothFailed = true
 			}
 			if k.err == nil {
 				id := fmt.Sprintf("%v/%s", key.treeRoot, key.d)
@@ -255,6 +263,9 @@ func TestC17CachingFetcherDifferential(t *testing.T) {
 		add(hitSeen, "cache_hit")
 		add(refetchSeen, "refetch_after_eviction")
 		add(hdr.KeyFormat == "with_instance", "key_with_instance")
+		add(bothFailed, "both_fetchers_failed")
+		add(errorCodeDiffers, "diagnostic:error_code_differs_from_uncached")
+		add(errorTextDiffers, "diagnostic:error_text_differs_from_uncached")
 		rec.Case(script, dualSeen && hitSeen && refetchSeen, labels...)
 	})
 }
